@@ -193,7 +193,12 @@ def seq_job(args):
     try:
         m, _ = build.build(d)
         m.parameters = list(theta_gen)
-        obj = lossref.make_loss(kind, list(theta_gen), m, list(x0), t0, times, yin, cols if p > 1 else cols[0])
+        yin_before = np.array(yin, copy=True)
+        x0_arr = np.array(x0, float)
+        x0_before = x0_arr.copy()
+        obj = lossref.make_loss(kind, list(theta_gen), m, x0_arr, t0, times, yin, cols if p > 1 else cols[0])
+        # a second loss object on the SAME model object (another data set, another parameter vector), evaluated in between
+        obj2 = lossref.make_loss("Square", list(th_b), m, [v * 1.2 + 0.1 for v in x0], t0, times[:4], np.asarray(y[:4, 0]).copy(), cols[0])
     except Exception as e:
         out["viol"].append((dict(sig, what="raised"), {"model": name, "loss": kind, "state_name": cols, "error": "%s: %s" % (type(e).__name__, e)}))
         return out
@@ -205,6 +210,11 @@ def seq_job(args):
         if entry == "costIV":
             cur_x0 = list(xx)
         xx = cur_x0
+        if k in (2, 5, 8):
+            try:
+                obj2.cost([v * (1 + 0.01 * k) for v in th_b])
+            except Exception:
+                pass
         try:
             got = obj.cost(list(th)) if entry == "cost" else obj.residual(list(th)) if entry == "residual" else obj.costIV(list(th) + list(xx))
         except Exception as e:
@@ -235,6 +245,9 @@ def seq_job(args):
         if prev is not None and prev[0] == entry and abs(val - prev[1]) > 3e-6 * (1 + abs(val)):
             out["nontrivial"] += 1
         prev = (entry, val)
+    if not out["viol"] and (not np.array_equal(np.asarray(yin), yin_before) or not np.array_equal(x0_arr, x0_before)):
+        out["viol"].append((dict(sig, what="caller-arrays-modified"), {"model": name, "loss": kind, "state_name": cols,
+                                                                      "x0_after": x0_arr.tolist(), "x0_before": x0_before.tolist()}))
     return out
 
 
@@ -299,7 +312,8 @@ def main(argv=None):
                 "with fractional t0, integer-typed with fractional t0}%s: compared (1e-6) with independent loss formulas applied to the reference "
                 "trajectory; square loss at the generating parameters <= 1e-10. sequence leg: on ONE loss object per (model, loss, selection) ten "
                 "evaluations through cost / residual / costIV at a point, at points a relative 9e-6 away, elsewhere and back, each compared "
-                "with the reference at exactly its argument. target_state leg: costIV for every ordered target_state subset on objects "
+                "with the reference at exactly its argument, while a second loss object built on the same model object is evaluated in between; the "
+                "observation and initial-state arrays handed to the constructor must come back untouched. target_state leg: costIV for every ordered target_state subset on objects "
                 "constructed with x0 as float list / integer list / integer array / float array and fractional initial values supplied. non-trivial = observed columns differ by >1e-2 and rows by >1e-3" % (
                     models, " (quick: every second configuration, selected by VERIF_SEED)" if quick else ""),
         "configurations": total,
